@@ -466,6 +466,7 @@ func (r *yieldRewriter) rewriteSwitchStmt(
 			x,
 			body,
 		)
+		children = r.combineIfNecessary(children) // for init containing yieldFrom
 		children.push(switchStmt, kindTrival)
 		return children
 	}
